@@ -57,6 +57,7 @@ SUBST_KINDS = {
     'R12': 'pattern destructuring in closure/let position => field access',
     'R15': 'Deref of a deref_buffer! newtype made explicit: x[i] => x.buffer[i], x.len() => x.buffer.len(), and float compound assignment on it expanded (X op= E => X = X op E)',
     'R16': 'unary minus on a parenthesised float expression routed through the contracted wrapper f64_neg: -(E) => f64_neg(E)',
+    'R18': 'file-level const of the source file, referenced by the extracted text and not defined in the unit, copied in as pub const',
     'R17': 'trait default method verified at one implementing type: the associated type / accessor is named at that instance (Self::Coef => Coefficients, self.alpha() => self.alpha)',
     'R14': 'explicit type ascription on a let (the type rustc infers; needed because spliced spec text mentions the variable before inference completes)',
     'R13': 'contract splice on a nested fn or closure header (adds specification text and a name for the return value; executable text unchanged)',
@@ -838,9 +839,40 @@ def scan_assumptions(lines):
     return found
 
 
+def add_referenced_consts(repo, ex, lines):
+    """R18: a file-level `const` of a source file from which a function was extracted, which the generated text
+    mentions but does not define, is copied in (made `pub`) right after the `verus! {` line.  Keeps a change that
+    introduces or uses such a constant inside the verified subset."""
+    text = '\n'.join(t for t, _ in lines)
+    files = sorted(set(q.split('::')[0] for q in ex.functions))
+    added = []
+    for rel in files:
+        fp = os.path.join(repo, rel)
+        try:
+            src = open(fp).read()
+        except OSError:
+            continue
+        mask = code_mask(src)
+        for m in find_code(src, mask, r'(?m)^(?:pub(?:\([^)]*\))?\s+)?const\s+([A-Z][A-Z0-9_]*)\s*:\s*([^=;]+)=([^;]*);'):
+            name = m.group(1)
+            if not re.search(r'\b%s\b' % name, text):
+                continue
+            if re.search(r'\bconst\s+%s\b' % name, text):
+                continue
+            added.append((name, 'pub const %s: %s = %s;' % (name, m.group(2).strip(), m.group(3).strip()), rel))
+    if added:
+        k = next((i for i, (t, _) in enumerate(lines) if t.strip().startswith('verus!') and t.strip().endswith('{')), None)
+        if k is not None:
+            ins = [('// R18: file-level constant of %s referenced by the extracted text' % rel, None) for _, _, rel in added[:1]]
+            ins += [(decl, None) for _, decl, _ in added]
+            lines[k + 1:k + 1] = ins
+            ex.rewrites['R18'] = ex.rewrites.get('R18', 0) + len(added)
+    return lines
+
+
 def generate(repo, unit_path, out_path, twin_path=None):
     ex = Extractor(repo, unit_path).run()
-    lines = ex.out.lines
+    lines = add_referenced_consts(repo, ex, ex.out.lines)
     with open(out_path, 'w') as f:
         for t, _ in lines:
             f.write(t.replace('/*@ENTRY', '/*ENTRY').rstrip() + '\n')
